@@ -3,7 +3,7 @@ From Coq Require Import Extraction ExtrOcamlBasic ZArith.
 From CgnsV Require Import Refcount Handles.
 Extraction Language OCaml.
 Set Extraction KeepSingleton.
-Extraction "extracted/c16b/model.ml" Handles.mh_step Handles.cgi_get_file Handles.hstep Handles.get_cgnsio
+Extraction "extracted/c16b/model.ml" Handles.mh_step Handles.fn_left Handles.cgi_get_file Handles.hstep Handles.get_cgnsio
   Handles.cgio_resolve Handles.adf_resolve Refcount.cgio_walk Refcount.io_init Refcount.mll_init
   Refcount.zero_attr Refcount.attr_at
   BinInt.Z.of_nat.   (* pulls in Z / positive, which the shared ocaml/zutil.ml expects *)
